@@ -35,3 +35,15 @@ pub trait ColumnLoader: Sync + Send + 'static {
 }
 
 pub type PartitionID = u64;
+
+// verification hooks: re-export of module-private items (add-only, feature `verif`)
+#[cfg(feature = "verif")]
+#[allow(unused_imports)]
+pub mod verif_export {
+    pub mod file_writer {
+        pub use super::super::file_writer::*;
+    }
+    pub mod partition_segment {
+        pub use super::super::partition_segment::*;
+    }
+}
